@@ -142,7 +142,7 @@ pub fn suites() -> Vec<Suite> {
         head_len: HEAD_LEN,
         op_len: OP_LEN,
         max_ops: 24,
-        quick_cases: 4_000,
+        quick_cases: 14_000,
         thorough_cases: 300_000,
         run,
         direct: Some(direct_with::<C13Oracle>),
